@@ -1203,3 +1203,161 @@ func ruleR1(c *Ctx, rels ...string) {
 		c.trivial("processor count", token.NoPos, "not read in %v", rels)
 	}
 }
+
+// ---- P8c a failed read fails the statement ----------------------------------------------------------------------------------------------------------
+
+func ruleP8c(c *Ctx) {
+	c.Rule("P8c", "in the planner the error of a fetch ends the function with an error on every path: from the edge on which the error of simpleFetch/simpleExist/addTriples/update or of a driver call is known non-nil, no return with a nil error is reachable (except through the reviewed 'skippable' type test) — a failed read is never turned into an empty or partial table, whatever the clause (OPTIONAL included)", 4)
+	n := 0
+	for _, fn := range c.srcFuncs("bql/planner") {
+		fi := c.fi(fn)
+		allInstrs(fn, func(in ssa.Instruction) {
+			iff, ok := in.(*ssa.If)
+			if !ok {
+				return
+			}
+			bo, ok := iff.Cond.(*ssa.BinOp)
+			if !ok || (bo.Op != token.NEQ && bo.Op != token.EQL) || !isNilConst(bo.Y) {
+				return
+			}
+			// the tested value is the error result of a fetch or driver call
+			var src *ssa.Call
+			switch x := bo.X.(type) {
+			case *ssa.Extract:
+				src, _ = x.Tuple.(*ssa.Call)
+			case *ssa.Call:
+				src = x
+			}
+			if src == nil || !types.Identical(bo.X.Type(), types.Universe.Lookup("error").Type()) {
+				return
+			}
+			isFetch := false
+			if src.Call.IsInvoke() && (isNamed(src.Call.Value.Type(), modPath+"/storage", "Graph") || isNamed(src.Call.Value.Type(), modPath+"/storage", "Store")) {
+				isFetch = true
+			}
+			if f := src.Call.StaticCallee(); f != nil && f.Pkg != nil && f.Pkg.Pkg.Path() == modPath+"/bql/planner" {
+				switch fnName(f) {
+				case "simpleFetch", "simpleExist", "addTriples", "update", "addSpecifiedData", "specifyClauseWithTable", "processClause", "processGraphPattern":
+					isFetch = true
+				}
+			}
+			if !isFetch {
+				return
+			}
+			// only functions that can report an error
+			if errorResultIndex(fn.Signature) < 0 {
+				return
+			}
+			n++
+			errEdge := 0
+			if bo.Op == token.EQL {
+				errEdge = 1
+			}
+			start := in.Block().Succs[errEdge]
+			// reachability from the error edge, not passing through a type test of the error (the skippable case)
+			seen := map[int]bool{}
+			stack := []int{start.Index}
+			bad := ""
+			for len(stack) > 0 {
+				bi := stack[len(stack)-1]
+				stack = stack[:len(stack)-1]
+				if bi >= fi.n || seen[bi] {
+					continue
+				}
+				seen[bi] = true
+				b := fn.Blocks[bi]
+				typed := false
+				for _, i2 := range b.Instrs {
+					if ta, ok := i2.(*ssa.TypeAssert); ok && ta.X == bo.X {
+						typed = true
+					}
+					if r, ok := i2.(*ssa.Return); ok {
+						rv := resultValues(r)
+						if isNilConst(rv[len(rv)-1]) {
+							bad = c.pos(r.Pos())
+						}
+					}
+				}
+				if typed {
+					continue
+				}
+				// leaving through the loop back edge of an enclosing loop re-tests nothing: stop at blocks that dominate the test
+				for _, s := range fi.succs[bi] {
+					if s < fi.n && !fi.dominates(fn.Blocks[s], in.Block()) {
+						stack = append(stack, s)
+					}
+				}
+			}
+			c.check(bad == "", fmt.Sprintf("%s propagates the error tested at line %d", funcName(fn), c.Fset.Position(in.Pos()).Line), in.Pos(), "no success return is reachable from the error edge", "from the edge on which the error of "+calleeName(&src.Call)+" is non-nil the function can still return success at "+bad+": a failed read is reported as an (empty or partial) result")
+		})
+	}
+	if n < 4 {
+		c.undecided("tested fetch errors in the planner", token.NoPos, "only %d found", n)
+	}
+}
+
+// ---- P8d a goroutine's error is looked at before success is reported -----------------------------------------------------------------------------------
+
+func ruleP8d(c *Ctx) {
+	c.Rule("P8d", "the error a producer goroutine leaves in a captured variable is examined before the spawning function reports success: every return with a nil error that comes after the go statement is dominated by the 'variable is nil' edge of a test of that variable (an early return between the join and the test reports a partial read as complete)", 4)
+	n := 0
+	for _, fn := range c.srcFuncs("bql/planner", "io") {
+		if errorResultIndex(fn.Signature) < 0 {
+			continue
+		}
+		fi := c.fi(fn)
+		allInstrs(fn, func(in ssa.Instruction) {
+			g, ok := in.(*ssa.Go)
+			if !ok {
+				return
+			}
+			mc, ok := g.Call.Value.(*ssa.MakeClosure)
+			if !ok {
+				return
+			}
+			tgt := mc.Fn.(*ssa.Function)
+			// captured error cells the goroutine assigns
+			for i, fv := range tgt.FreeVars {
+				pt, ok := fv.Type().Underlying().(*types.Pointer)
+				if !ok || !types.Identical(pt.Elem(), types.Universe.Lookup("error").Type()) || i >= len(mc.Bindings) {
+					continue
+				}
+				assigned := false
+				allInstrs(tgt, func(i2 ssa.Instruction) {
+					if st, ok := i2.(*ssa.Store); ok && st.Addr == ssa.Value(fv) {
+						assigned = true
+					}
+				})
+				if !assigned {
+					continue
+				}
+				cell := mc.Bindings[i]
+				n++
+				bad := ""
+				for _, r := range c.returnsOf(fn) {
+					rv := resultValues(r)
+					if !isNilConst(rv[len(rv)-1]) || !fi.instrDominates(in, r) {
+						continue
+					}
+					okFact := false
+					for _, ft := range fi.factsAt(r.Block()) {
+						bo, ok := ft.Cond.(*ssa.BinOp)
+						if !ok || !isNilConst(bo.Y) {
+							continue
+						}
+						if u, ok := bo.X.(*ssa.UnOp); ok && u.Op == token.MUL && u.X == cell && (bo.Op == token.EQL) == ft.Truth {
+							okFact = true
+						}
+					}
+					if !okFact {
+						bad = c.pos(r.Pos())
+					}
+				}
+				c.check(bad == "", fmt.Sprintf("%s examines %s before reporting success (go at line %d)", funcName(fn), fv.Name(), c.Fset.Position(in.Pos()).Line), in.Pos(), "every success return after the spawn is on the nil edge of a test of the goroutine's error", "success is returned at "+bad+" without the error the producer goroutine left in "+fv.Name()+" having been tested: a read that failed part-way is reported as complete")
+			}
+		})
+	}
+	if n < 4 {
+		c.undecided("producer goroutines with an error cell", token.NoPos, "only %d found", n)
+	}
+}
